@@ -25,7 +25,7 @@ func genControlCase(e *Env) *Case {
 func runC09(e *Env) error {
 	r := e.Rep
 	r.Rule = "random programs nesting if/elseif/else, for/else (lists, maps, strings, ranges, non-iterables), set, include, apply, verbatim to depth 3 over a context with every value kind; " +
-		"plus every list length 0..6 × loop-metadata probe (implementation-only); non-trivial = renders without error and contains a for or if; distinct by main template source"
+		"plus every list length 0..6 × loop-metadata probe (implementation-only); every pair of typed Go sequence spellings nested at every pair of lengths; loop nests over typed slices, arrays, lists of lists, records and typed maps against the model-checked []interface{} render; whitespace-bearing string literals in every position of for/if/set/do/include tags; non-trivial = renders without error and contains a for or if; distinct by main template source"
 	// regression corpus: the pinned-tree defects of this property
 	corpus := []struct{ src, want string }{
 		{"{% if 1 - 1 %}T{% else %}F{% endif %}", "F"},
@@ -138,6 +138,15 @@ func runC09(e *Env) error {
 		r.Seen("literal-seq:"+src, true)
 	}
 	forceOracles = false
+	// sequences as Go callers pass them (typed slices, arrays, maps): c09_typed.go
+	runTypedNestMatrix(e)
+	if err := runTypedPrograms(e); err != nil {
+		return err
+	}
+	// whitespace-bearing string literals inside the tags: c09_ws.go
+	if err := runWhitespaceLiterals(e); err != nil {
+		return err
+	}
 	// differential
 	n := e.N(1500, 60000)
 	for i := 0; i < n && !r.Full(); i++ {
